@@ -39,6 +39,36 @@ type Prop struct {
 	// Risky: an execution may kill the process (fatal out-of-memory); the
 	// worker then records the running choice vector in a side file first.
 	Risky bool
+	// Extra lists further binaries (build variants) the parent needs.
+	Extra []string
+	// Aux is an auxiliary entry point run as `vcheck --aux --id <ID> -- args…`
+	// (used by supplements that need their own processes).
+	Aux func(tier string, args []string) int
+	// Supplement runs in the parent after the exploration: a complementary
+	// pass whose findings are reported like exploration violations but that is
+	// not the deciding enumeration (its coverage goes under coverage.supplement).
+	Supplement func(c *SuppCtx) *SuppResult
+}
+
+// SuppCtx is what a supplement gets from the parent.
+type SuppCtx struct {
+	Tier   string
+	BinDir string
+	OutDir string
+	Work   string
+}
+
+// SuppFinding is one finding of a supplement; Artefact is written to the replay file.
+type SuppFinding struct {
+	Kind, Shape, Detail string
+	Artefact            string
+}
+
+// SuppResult is a supplement's coverage and findings.
+type SuppResult struct {
+	Coverage map[string]any
+	Findings []SuppFinding
+	Error    string // harness failure
 }
 
 // Violation is a failing execution written by a worker.
